@@ -65,7 +65,7 @@ MATRIX = _matrix()
 
 
 def streams(ctx):
-    return [("matrix", len(MATRIX)), ("random", ctx.scale(200, 5000))]
+    return [("matrix", len(MATRIX)), ("random", ctx.scale(200, 5000)), ("argparse_return", ctx.scale(150, 3000))]
 
 
 def _snap_ir(intermediate_repr):
@@ -150,7 +150,9 @@ def classify(fmt, ir, cfg, d):
     detail = "style=%s,edd=%s,ta=%s,kw=%s,t=%s,d=%s" % (style, edd, ta, cfg.get("kwonly"), tk, dk)
     mech = None
     if fmt == "argparse":
-        if where == "param" and field == "default" and how.startswith("gained:") and dk == "absent":
+        if where == "return" and field == "default" and how == "value" and got == repr("'%s'" % (d.get("exp") or "")[1:-1]):
+            mech = "argparse.return-default-requoted"
+        elif where == "param" and field == "default" and how.startswith("gained:") and dk == "absent":
             mech = "argparse.required-without-default-gets-zero"
         elif where == "param" and field == "typ" and tk == "bool" and dk == "absent" and how == "bool->optional":
             mech = "argparse.bool-becomes-optional"
@@ -209,6 +211,19 @@ def gen_case(ctx, stream, idx):
     if stream == "probe":
         return irgen.rand_ir(r, nparams=r.randint(0, 4), default_kinds=("none", "code", "emptystr", "absent", "int"),
                              return_default=r.random() < 0.3)
+    if stream == "argparse_return":
+        # argparse keeps a return entry only when it has a default (a code expression): exercise that path, with
+        # descriptions that contain commas (the docstring line is `:return: argument_parser, <description>`) or are empty
+        ir = irgen.rand_ir(r, type_kinds=("int", "float", "str", "bool", "literal"), default_kinds=("int", "float", "str", "bool"),
+                           nparams=r.randint(1, 3), all_defaults=True, with_return=True)
+        rp = ir["returns"]["return_type"]
+        rp["typ"] = r.choice(("int", "float", "bool", "np.ndarray"))
+        rp["default"] = {"int": "```5```", "float": "```2.5```", "bool": "```True```", "np.ndarray": "```np.empty(0)```"}[rp["typ"]]
+        rp["doc"] = r.choice(("%s", "%s, or zero when %s", "%s, %s, and %s", "a, b")).replace("%s", "{}").format(
+            *(irgen.rand_doc(r, 2, stop=False) for _ in range(3)))
+        if r.random() < 0.15:
+            rp["doc"] = ""
+        return ir
     raise ValueError(stream)
 
 
@@ -227,6 +242,8 @@ def run_case(ctx, P, stream, idx):
     CUR.update(P=P, stream=stream, idx=idx)
     sh = irgen.shape(ir)
     for fmt, kw in configs():
+        if stream == "argparse_return" and (fmt != "argparse" or kw["docstring_format"] != "rest"):
+            continue  # (Google/NumPy argparse docstrings with a return default are rejected by the unchanged parser)
         P.case({"ir": ir, "fmt": fmt, "kw": kw}, nontrivial=bool(ir["params"]), klass="%s/%s" % (stream, fmt),
                sample={"format": fmt, "options": kw, "shape": sh, "ir": ir})
         try:
